@@ -140,8 +140,8 @@ CLAIMED = {
              "integer; with C10's byte maps: bit-exact round trip of every non-NaN single/double pattern); no function "
              "between decoder, item and encoder converts or computes on the value; NaN -> canonical quiet NaN of the width; "
              "0xF9/FA/FB <-> float2/4/8 wiring; the half encoder is loop-free, total and framed correctly.",
-        note="NOT decided (honest decline): the numeric correctness of _cbor_decode_half / cbor_encode_half (IEEE value of each "
-             "half pattern, rounding, subnormals, shift ranges). These are facts about arithmetic on runtime values; no sound "
+        note="NOT decided (honest decline): the numeric formulas of _cbor_decode_half / cbor_encode_half (scaling constants, rounding, "
+             "subnormals, shift ranges); the decoder's CLASS dispatch (infinity/NaN vs scaled, sign) is decided for all 65536 patterns. These are facts about arithmetic on runtime values; no sound "
              "static argument in reach bounds them (goto-analyzer: UNKNOWN / internal abort).",
         design="§4 C15"),
     "C16": dict(
